@@ -20,7 +20,7 @@ def plan(tier, seed):
     q = tier == "quick"
     shards = []
     for i in range(8 if q else 16):
-        shards.append({"kind": "histories", "n": 70 if q else 2500, "maxlen": 6 if q else 25})
+        shards.append({"kind": "histories", "n": 70 if q else 600, "maxlen": 6 if q else 25})
     shards.append({"kind": "fixed"})
     return {
         "level": "exploration",
